@@ -933,6 +933,12 @@ func tagsOf(c *Case, e *env, o *Obs) []string {
 	if o.Hook.Streams > len(e.producers) {
 		t = append(t, "has:merge-forwarder")
 	}
+	for _, n := range o.Hook.Merges {
+		if n > 5 {
+			t = append(t, "has:merge-wider-than-static-select")
+			break
+		}
+	}
 	if e.resumes > 0 {
 		t = append(t, "has:interrupt-resume")
 	}
